@@ -636,11 +636,11 @@ _add(
 )
 _add(
     "C15",
-    m("catch-key-results-swapped", S, "    eval_hash, args_hash = hash_args_eval(scheduler.type_registry, catch, catch_args, {})", "    args_hash, eval_hash = hash_args_eval(scheduler.type_registry, catch, catch_args, {})", "C15.7"),
+    m("catch-key-results-swapped", S, "    eval_hash, args_hash = hash_args_eval(scheduler.type_registry, catch, key_args, {})", "    args_hash, eval_hash = hash_args_eval(scheduler.type_registry, catch, key_args, {})", "C15.7"),
 )
 _add(
     "C12",
-    m("catch-key-without-error-classes", S, "    eval_hash, args_hash = hash_args_eval(scheduler.type_registry, catch, catch_args, {})", "    eval_hash, args_hash = hash_args_eval(scheduler.type_registry, catch, (expr, *recovers), {})", "C12.8"),
+    m("catch-key-without-error-classes", S, "    key_args = catch_args + ((context,) if context else ())\n", "    key_args = (expr, *recovers) + ((context,) if context else ())\n", "C12.8"),
 )
 _add(
     "C13",
@@ -653,4 +653,8 @@ _add(
 _add(
     "C10",
     m("k8s-array-published-empty", "redun/executors/k8s.py", "        self.pending_k8s_jobs[array_job_name] = {i: jobs[i] for i in range(array_size)}\n", "        self.pending_k8s_jobs[array_job_name] = {}\n        for i in range(array_size):\n            cast(\"dict[int, Job]\", self.pending_k8s_jobs[array_job_name])[i] = jobs[i]\n", "C10.10"),
+)
+_add(
+    "C05",
+    m("catch-key-without-context", S, "    key_args = catch_args + ((context,) if context else ())\n", "    key_args = catch_args\n", "C05.7"),
 )
